@@ -6,6 +6,7 @@
 #include "../mm.h"
 #include "../obs.h"
 #include "parse_sets.h"
+#include "corpus.h"
 
 namespace {
 
@@ -18,7 +19,7 @@ struct Local {
 
 template <class C> struct Runner {
     FenceBuf fb; Ledger led; Local *lc; Ctx *ctx;
-    Runner(Ctx *c, Local *l) : fb(4), lc(l), ctx(c) {}
+    Runner(Ctx *c, Local *l, size_t pages = 4) : fb(pages), lc(l), ctx(c) {}
 
     Str encode(const C *s, int n) {
         bool wide = false; for (int i = 0; i < n; i++) if ((unsigned long)(typename std::make_unsigned<C>::type)s[i] > 255) wide = true;
@@ -90,7 +91,7 @@ template <class C> struct Runner {
 
 struct Both {
     Local lc; Runner<char> ra; Runner<wchar_t> rw; std::vector<wchar_t> wbuf;
-    Both(Ctx &ctx) : ra(&ctx, &lc), rw(&ctx, &lc), wbuf(256) {}
+    Both(Ctx &ctx, size_t pages = 4) : ra(&ctx, &lc, pages), rw(&ctx, &lc, pages), wbuf(256) {}
     void run(const char *s, int n, bool bulk) {
         ra.run(s, n, bulk);
         if ((size_t)n > wbuf.size()) wbuf.resize(n);
@@ -138,6 +139,20 @@ void run(Ctx &ctx) {
     ip6_product(ctx, z.ip_groups3, z.ip_groups4, [&](const Str &s) { b.run(s.data(), (int)s.size(), false); n_ip++; });
     ipfuture_product(ctx, z.fut_len, [&](const Str &s) { b.run(s.data(), (int)s.size(), false); n_fut++; });
     if (z.octets) octet_product(ctx, [&](const Str &s) { b.run(s.data(), (int)s.size(), false); n_oct++; });
+    // (e) the stretch family: every component blown up to lengths around powers of two, alone, with an illegal character at the
+    //     end, with a truncated escape at the end and with an illegal character in the middle (error offsets far from the start)
+    uint64_t n_stretch = 0;
+    if (!ctx.expired()) {
+        Both bs(ctx, 520); uint64_t idx = 0;
+        stretch_family(ctx.secondary ? 0 : ctx.quick() ? 1 : 2, [&](const Str &s) {
+            if (!ctx.mine(idx++) || ctx.expired()) return;
+            Str v[4] = { s, s + "[", s + "%4", s.substr(0, s.size() / 2) + "\x7f" + s.substr(s.size() / 2) };
+            for (auto &x : v) { bs.run(x.data(), (int)x.size(), false); n_stretch++; }
+        });
+        for (int q = 0; q < DFA_NSTATES; q++) if (bs.lc.state_seen[q]) b.lc.state_seen[q] = 1;
+        b.lc.strings += bs.lc.strings; b.lc.calls += bs.lc.calls; b.lc.accepted += bs.lc.accepted; b.lc.rejected += bs.lc.rejected; b.lc.inbracket_rejects += bs.lc.inbracket_rejects; b.lc.bracket_rule_used += bs.lc.bracket_rule_used;
+    }
+    ctx.st.count("set_stretch", n_stretch);
     finish(ctx, b.lc);
     ctx.st.count("set_wmethod", n_w); ctx.st.count("set_bruteforce", n_bf); ctx.st.count("set_ip6_product", n_ip);
     ctx.st.count("set_ipfuture", n_fut); ctx.st.count("set_octets", n_oct); ctx.st.count("set_wide_extras", n_wide);
@@ -147,7 +162,7 @@ void run(Ctx &ctx) {
 }
 
 void replay(Ctx &ctx, const Str &enc) {
-    Both b(ctx);
+    Both b(ctx, 520);
     if (enc.compare(0, 2, "b:") == 0) { Str s = enc.substr(2); b.run(s.data(), (int)s.size(), false); }
     else if (enc.compare(0, 2, "w:") == 0) {
         std::vector<wchar_t> w; for (auto &t : split(enc.substr(2), ',')) if (!t.empty()) w.push_back((wchar_t)strtoul(t.c_str(), 0, 16));
@@ -169,7 +184,7 @@ Str coverage(const Ctx &ctx, const Stats &st) {
            jkv("distinct_final_model_states_observed", st.nset("final_states")) + ", " + jkv("distinct_error_offsets_observed", st.nset("error_offsets")) + ", " +
            jkv("rejects_inside_bracket", st.get("rejects_inside_bracket")) + ", " + jkv("bracket_rule_used", st.get("bracket_rule_used")) + ", " +
            jkv("set_wmethod", st.get("set_wmethod")) + ", " + jkv("set_bruteforce", st.get("set_bruteforce")) + ", " + jkv("set_ip6_product", st.get("set_ip6_product")) + ", " +
-           jkv("set_ipfuture", st.get("set_ipfuture")) + ", " + jkv("set_octets", st.get("set_octets")) + ", " + jkv("set_wide_extras", st.get("set_wide_extras")) + ", " + jsamples(st);
+           jkv("set_ipfuture", st.get("set_ipfuture")) + ", " + jkv("set_octets", st.get("set_octets")) + ", " + jkv("set_wide_extras", st.get("set_wide_extras")) + ", " + jkv("set_stretch_family", st.get("set_stretch")) + ", " + jsamples(st);
 }
 
 Check chk = { "C01", "model_checking", run, replay, coverage,
